@@ -144,8 +144,12 @@ static int null_payload(const adv_out *o, const uint8_t **p)
 
 static void job_raw_server(void)
 {
-	int seeds[] = { 0, 1, 2, 0x7ffffffe, 0x12345678, 0x00ff00ff, 0x7fffffff };
-	for (unsigned k = 0; k < sizeof seeds / sizeof seeds[0]; k++) {
+	int seeds[16] = { 0, 1, 2, 0x7ffffffe, 0x12345678, 0x00ff00ff, 0x7fffffff };
+	unsigned nseeds = 7;
+	/* challenges whose documented response (DNS: challenge, raw: challenge + 1) has a zero byte at the first / eighth position */
+	for (int which = 0; which < 2; which++) for (int z = 0; z < 8; z += 7)
+		for (uint32_t c = 0x2000u + 0x100000u * (uint32_t)(which * 2 + z); ; c++) { unsigned char d[16]; ref_login(pw32, c + which, d); if (d[z] == 0) { seeds[nseeds++] = (int)c; break; } }
+	for (unsigned k = 0; k < nseeds; k++) {
 		if (xp_fork_wait() != 0) continue;
 		struct w_server_cfg c = { .topdomain = "t.example.com", .password = PW, .my_ip = "10.0.0.1", .netmask = 29, .mtu = 1130, .check_ip = 1, .srand_seed = 1 };
 		vw_init();
@@ -161,6 +165,15 @@ static void job_raw_server(void)
 		uint32_t seed = (pl[4] << 24) | (pl[5] << 16) | (pl[6] << 8) | pl[7];
 		if ((int)seed != seeds[k]) { dprintf(1, "HARNESS-ERROR forced challenge not used (%08x)\n", seed); _exit(2); }
 		unsigned char login[19] = { pl[8] };
+		/* a response that agrees with the documented one only up to its first zero byte is not the documented one */
+		ref_login(pw32, seed, login + 1);
+		{ unsigned char *z = memchr(login + 1, 0, 15); if (z) {
+			for (unsigned char *q = z + 1; q < login + 17; q++) *q ^= 0x5a;
+			login[17] = 7; login[18] = 7;
+			adv_clear(); adv_send(&me, ml, pkt, mkq(pkt, 99, 'l', login, 19, c.topdomain));
+			xp_count(K_RAW, 1);
+			if (adv_nout == 1 && (n = null_payload(&adv_outs[0], &pl)) >= 10 && memchr(pl, '-', n)) viol("response-right-only-up-to-a-zero-byte-accepted", "challenge 0x%08x: a response that matches the documented one only up to its first zero byte is accepted", seed);
+		} }
 		ref_login(pw32, seed, login + 1);
 		login[17] = 1; login[18] = 2;
 		adv_clear(); adv_send(&me, ml, pkt, mkq(pkt, 101, 'l', login, 19, c.topdomain));
@@ -207,7 +220,7 @@ static void job_raw_server(void)
 		xp_outcome(0x7000 + k);
 		xp_child_exit();
 	}
-	xp_sample("raw login against the real server loop for forced challenges 0,1,2,0x7ffffffe,0x12345678,0x00ff00ff,0x7fffffff");
+	xp_sample("DNS and raw login against the real server loop for forced challenges 0,1,2,0x7ffffffe,0x12345678,0x00ff00ff,0x7fffffff and four whose documented response has a zero byte at position 0 / 7 (e.g. 0x%08x)", seeds[7]);
 }
 
 /* real client handshake in raw mode against a scripted server: capture its DNS login and raw login bytes */
